@@ -764,4 +764,14 @@ def arc_midpoint(repo: Repo) -> RuleRun:
 arc_midpoint.rule_id = "C11.ARC-MIDPOINT"
 
 
-RULES = [quad_map_rule, chop_coverage, chop_role, radial_convention, arc_rings, chain_source, mirror_pairing, trig_domain, fill_conformal, arc_side, affine_kinds, stack_chain, no_shared_parts, moved_once, transform_routing, axis_terms, mirror_matrix, arguments_untouched, arc_midpoint]
+def scalar_amount(repo: Repo) -> RuleRun:
+    """'for ... any valid placement, size': an amount given as a numpy scalar is a valid size: the number-or-vector test of Extrude / ExtrudedShape / ExtrudedStack accepts every scalar."""
+    from ..params import scalar_dispatch_rule
+
+    return scalar_dispatch_rule(repo, PROP, "C11.SCALAR-AMOUNT")
+
+
+scalar_amount.rule_id = "C11.SCALAR-AMOUNT"
+
+
+RULES = [quad_map_rule, chop_coverage, chop_role, radial_convention, arc_rings, chain_source, mirror_pairing, trig_domain, fill_conformal, arc_side, affine_kinds, stack_chain, no_shared_parts, moved_once, transform_routing, axis_terms, mirror_matrix, arguments_untouched, arc_midpoint, scalar_amount]
